@@ -514,7 +514,11 @@ class IRGenerator:
                     'Bad arguments to annotation type %s.' % quote(item.annotation_type),
                     item.lineno, item.path)
         else:
-            if item.annotation_type_ns is not None:
+            if (item.annotation_type_ns is not None
+                    and item.annotation_type_ns != namespace.name):
+                # A reference to the namespace's own name is reported as a
+                # namespace that is not imported once the annotation type is
+                # looked up.
                 namespace.add_imported_namespace(
                     self.api.ensure_namespace(item.annotation_type_ns),
                     imported_annotation_type=True)
